@@ -1,9 +1,11 @@
 import KitModel.Go.Prelude
-import KitModel.Batcher
-import Std.Data.HashSet
+import KitModel.BatcherAccept
 /-!
 Driver for property C10: `kitdrv C10` — trace inclusion by state-set simulation of the batcher LTS
 (`KitModel/Batcher.lean` = C06 processor LTS composed with subscribers, `execute`, `Close`).
+The acceptor itself (`Obs`, `onObs`, `strip`, `closeSet`, `stepA`) lives in `KitModel/BatcherAccept.lean`
+and is proved sound in `KitProofs/Props/C10.lean` (`accepted_trace_has_run`); this file only parses
+lines into `Obs`, feeds them to `stepA` and prints.
 
 Input lines (one answer line each; `ok n=<size of the τ-closed state set>` or `reject …`):
 * `reset fixed=0|1 cap=<n> interval=<ns>`   start a new trace from the initial state
@@ -39,63 +41,10 @@ Input lines (one answer line each; `ok n=<size of the τ-closed state set>` or `
 namespace Driver.C10
 open Kit Kit.Queue Kit.Processor Kit.Batcher
 
-abbrev SSet := Std.HashSet Batcher.State
-
 structure D where
   cfg : Batcher.Cfg := ⟨true, 50, 10000000⟩
-  cur : SSet := {}
-  frozenSend : Bool := false
-  frozenExit : List Nat := []
-  frozenCas : Bool := false
-  frozenFired : Bool := false
-  frozenTimer : Bool := false
+  a : AState := { cur := [], fz := {}, overflow := false }
   dead : Bool := true
-
-def dummy : It := ⟨0, 0, 0, 0⟩
-
-/-- Remove what cannot influence any later step: the ghost fields; the *contents* of the buffer of
-a forwarder that has left its loop (only `fwdTake`, enabled in `idle`, reads them; `send` reads the
-length while the subscriber is still in `eventChs` — and not even that once its exit channel is
-closed, because `skipExit` is then enabled whenever `send` is and leads to the same state up to that
-buffer); everything about a subscriber that is `done`. -/
-def stripSub (u : Sub) : Sub :=
-  match u.pc with
-  | .done => { buf := [], pc := .done, delivered := [], ctxDone := true, exitClosed := true, joinedAt := 0, missed := false }
-  | .exiting | .wantLock =>
-    -- once the exit channel is closed `skipExit` is always enabled and differs from `send` only in the dead buffer
-    { u with buf := if u.exitClosed then [] else u.buf.map (fun _ => dummy), delivered := [], joinedAt := 0, missed := false }
-  | _ => { u with delivered := [], joinedAt := 0, missed := false }
-
-def strip (s : Batcher.State) : Batcher.State :=
-  { s with p := { s.p with log := [], readAt := 0, armAt := 0 }, out := [], calls := [], subs := s.subs.map stripSub }
-
-def hiddenOK (d : D) : Batcher.Label → Bool
-  | .closeReturn => false
-  | .send | .skipExit | .skipClose | .skipGone | .proc .cbReturn => !d.frozenSend
-  | .fwdRemove i => !d.frozenExit.contains i
-  | .proc .closeStopCh => !d.frozenCas
-  | .proc (.execCheck _) => !d.frozenFired
-  | .proc .arm => !d.frozenTimer
-  | _ => true
-
-def hidden (d : D) (s : Batcher.State) : List Batcher.Label :=
-  (Batcher.taus d.cfg s).filter (hiddenOK d)
-
-def closureLimit : Nat := 40000
-
-partial def closure (d : D) (todo : List Batcher.State) (seen : SSet) : SSet :=
-  match todo with
-  | [] => seen
-  | s :: rest =>
-    if seen.size > closureLimit then seen else
-    let succs := ((hidden d s).filterMap (Batcher.step d.cfg s)).map strip
-    let (todo', seen') := succs.foldl (fun (acc : List Batcher.State × SSet) s' =>
-      if acc.2.contains s' then acc else (s' :: acc.1, acc.2.insert s')) (rest, seen)
-    closure d todo' seen'
-
-def closeSet (d : D) (xs : List Batcher.State) : SSet :=
-  let seen : SSet := xs.foldl (fun acc s => acc.insert (strip s)) {}
-  closure d seen.toList seen
 
 def fpcName : FPc → String
   | .idle => "idle" | .holding x => s!"holding({x.val})" | .exiting => "exiting" | .wantLock => "wantLock" | .done => "done"
@@ -118,83 +67,38 @@ def showState (s : Batcher.State) : String :=
   let q := ",".intercalate (s.p.q.map fun r => s!"k{r.key}={r.val}@{r.time}")
   s!"q:{q};now:{s.p.now};timer:{s.p.timer};pc:{pcName s.p.pc};qclose:{cpcName s.p.cpc};reset:{s.p.reset};epc:{epcName s.epc};closed:{s.closed};close(q/l/w/r):{s.cq}/{s.cl}/{s.cw}/{s.cr};waitS:{s.waitS}+{s.waitSD};retS:{s.retS};subs:{"".intercalate (s.subs.map showSub)}"
 
-/-- Successors of one state under one observable event; `none` = malformed line. -/
-def onEvent (d : D) (l : Line) (s : Batcher.State) : Option (List Batcher.State) :=
-  let cfg := d.cfg
+/-- One input line as an observation; `none` = malformed. -/
+def parseObs (l : Line) : Option Obs :=
   match l.op with
-  | "batch" => do
-    let k ← l.nat? "key"; let v ← l.nat? "val"
-    let t := s.p.now + cfg.interval
-    let enq := [true, false].filterMap fun first => Batcher.step cfg s (.proc (.enqueue k t v first))
-    return if s.p.stopped then s :: enq else enq
-  | "adv" => do
-    let t ← l.int? "to"
-    return (Batcher.step cfg s (.proc (.advance t))).toList
-  | "scall" => some (Batcher.step cfg s .subCall).toList
-  | "scalld" => some (Batcher.step cfg s .subCallDone).toList
-  | "sret" => some (Batcher.step cfg s .subReturn).toList
-  | "cancel" => do
-    let i ← l.nat? "sub"
-    return (Batcher.step cfg s (.cancel i)).toList
-  | "recv" => do
-    let i ← l.nat? "sub"; let v ← l.nat? "v"
-    match s.subs[i]? with
-    | some u =>
-      match u.pc with
-      | .holding x => if x.val == v then return (Batcher.step cfg s (.fwdDeliver i)).toList else return []
-      | _ => return []
-    | none => return []
-  | "chclosed" => do
-    let i ← l.nat? "sub"
-    match s.subs[i]? with
-    | some u => return if u.pc == .done then [s] else []
-    | none => return []
-  | "ccall" => some (Batcher.step cfg s .closeCall).toList
-  | "cret" => some (Batcher.step cfg s .closeReturn).toList
-  | "park" => do
-    let p ← l.get? "p"; let i := (l.nat? "sub").getD 0
-    let sameItem (r : It) : Bool := l.nat? "key" == some r.key && l.int? "at" == some r.time
-    match p with
-    | "fired" =>
-      match s.p.pc with
-      | .firing r => return if sameItem r then [s] else []
-      | _ => return []
-    | "timer" =>
-      match s.p.pc with
-      | .arming r => return if sameItem r then [s] else []
-      | _ => return []
-    | "send" =>
-      let v ← l.nat? "v"
-      match s.epc, s.subs[i]? with
-      | .sending r j, some u => return if j == i && u.inList && r.val == v then [s] else []
-      | _, _ => return []
-    | "exit" =>
-      match s.subs[i]? with
-      | some u => return if u.pc == .wantLock then [s] else []
-      | none => return []
-    | "cas" => return if s.p.cpc == .casDone then [s] else []
+  | "batch" => do let k ← l.nat? "key"; let v ← l.nat? "val"; pure (.batch k v)
+  | "adv" => do let t ← l.int? "to"; pure (.adv t)
+  | "scall" => some .scall
+  | "scalld" => some .scalld
+  | "sret" => some .sret
+  | "cancel" => do let i ← l.nat? "sub"; pure (.cancel i)
+  | "recv" => do let i ← l.nat? "sub"; let v ← l.nat? "v"; pure (.recv i v)
+  | "chclosed" => do let i ← l.nat? "sub"; pure (.chclosed i)
+  | "ccall" => some .ccall
+  | "cret" => some .cret
+  | "xsend" => do let i ← l.nat? "sub"; let v ← l.nat? "v"; pure (.xsend i v)
+  | "fexit" => do let i ← l.nat? "sub"; pure (.fexit i)
+  | "park" =>
+    match l.get? "p" with
+    | some "send" => do let i ← l.nat? "sub"; let v ← l.nat? "v"; pure (.parkSend i v)
+    | some "exit" => do let i ← l.nat? "sub"; pure (.parkExit i)
+    | some "cas" => some .parkCas
+    | some "fired" => do let k ← l.nat? "key"; let t ← l.int? "at"; pure (.parkFired k t)
+    | some "timer" => do let k ← l.nat? "key"; let t ← l.int? "at"; pure (.parkTimer k t)
     | _ => none
-  | "xsend" => do
-    let i ← l.nat? "sub"; let v ← l.nat? "v"
-    match s.epc, s.subs[i]? with
-    | .sending r j, some u => return if j == i && u.inList && r.val == v then [s] else []
-    | _, _ => return []
-  | "fexit" => do
-    let i ← l.nat? "sub"
-    match s.subs[i]? with
-    | some u => return if u.pc == .wantLock then [s] else []
-    | none => return []
-  | "unpark" => some [s]
-  | "quiet" =>
-    -- a reader that polls continuously cannot leave its forwarder holding a value at quiescence
-    let prompt := (l.nats? "prompt").getD []
-    let holding (i : Nat) : Bool :=
-      match s.subs[i]? with
-      | some u => match u.pc with
-        | .holding _ => true
-        | _ => false
-      | none => false
-    some (if (hidden d s).isEmpty && !(prompt.any holding) then [s] else [])
+  | "unpark" =>
+    match l.get? "p" with
+    | some "send" => some .unparkSend
+    | some "exit" => do let i ← l.nat? "sub"; pure (.unparkExit i)
+    | some "cas" => some .unparkCas
+    | some "fired" => some .unparkFired
+    | some "timer" => some .unparkTimer
+    | _ => none
+  | "quiet" => some (.quiet ((l.nats? "prompt").getD []))
   | _ => none
 
 def pendingWork (s : Batcher.State) : Bool :=
@@ -207,46 +111,30 @@ def handle (d : D) (raw : String) : D × String :=
   if l.op == "reset" then
     let cfg : Batcher.Cfg :=
       ⟨l.nat? "fixed" != some 0, (l.nat? "cap").getD 50, (l.int? "interval").getD 10000000⟩
-    let d' : D := { cfg := cfg, cur := {}, frozenSend := false, frozenExit := [], frozenCas := false, frozenFired := false, frozenTimer := false, dead := false }
-    let cur := closeSet d' [Batcher.init]
-    ({ d' with cur := cur }, s!"ok n={cur.size}")
+    let a := start cfg
+    ({ cfg := cfg, a := a, dead := a.overflow }, if a.overflow then "overflow n=0" else s!"ok n={a.cur.length}")
   else if d.dead then (d, "reject at=earlier")
   else if l.op == "dump" then
-    (d, " || ".intercalate ((d.cur.toList.take ((l.nat? "n").getD 10)).map showState))
+    (d, " || ".intercalate ((d.a.cur.take ((l.nat? "n").getD 10)).map showState))
   else if l.op == "stuck" then
-    let all := d.cur.toList
-    let k := (all.filter fun s => pendingWork s && ((Batcher.taus d.cfg s).filter (hiddenOK { d with frozenSend := false, frozenExit := [], frozenCas := false, frozenFired := false, frozenTimer := false })).isEmpty
+    let all := d.a.cur
+    let k := (all.filter fun s => pendingWork s && (hidden d.cfg {} s).isEmpty
                 && (Batcher.step d.cfg s .closeReturn).isNone).length
     (d, s!"stuck n={k} of={all.length}")
   else
-    let all := d.cur.toList
-    let rs := all.map (onEvent d l)
-    if rs.any Option.isNone then
-      ({ d with dead := true }, s!"reject malformed line: {raw.trimAscii.toString}")
-    else
-      let d1 : D :=
-        match l.op, l.get? "p", l.nat? "sub" with
-        | "park", some "send", _ => { d with frozenSend := true }
-        | "unpark", some "send", _ => { d with frozenSend := false }
-        | "park", some "exit", some i => { d with frozenExit := i :: d.frozenExit }
-        | "unpark", some "exit", some i => { d with frozenExit := d.frozenExit.filter (· != i) }
-        | "park", some "cas", _ => { d with frozenCas := true }
-        | "unpark", some "cas", _ => { d with frozenCas := false }
-        | "park", some "fired", _ => { d with frozenFired := true }
-        | "unpark", some "fired", _ => { d with frozenFired := false }
-        | "park", some "timer", _ => { d with frozenTimer := true }
-        | "unpark", some "timer", _ => { d with frozenTimer := false }
-        | _, _, _ => d
-      let nxt := closeSet d1 (rs.flatMap fun r => r.getD [])
-      if nxt.size > closureLimit then
-        ({ d1 with cur := nxt, dead := true }, s!"overflow n={nxt.size}")
-      else if nxt.size == 0 then
-        let st := match all with
+    match parseObs l with
+    | none => ({ d with dead := true }, s!"reject malformed line: {raw.trimAscii.toString}")
+    | some o =>
+      let a' := stepA d.cfg d.a o
+      if a'.overflow then
+        ({ d with a := a', dead := true }, s!"overflow n={a'.cur.length}")
+      else if a'.cur.isEmpty then
+        let st := match d.a.cur with
           | s :: _ => showState s
           | [] => "-"
-        ({ d1 with cur := nxt, dead := true },
-         s!"reject at={raw.trimAscii.toString.replace " " "_"} prev={all.length} state={st.replace " " "_"}")
-      else ({ d1 with cur := nxt }, s!"ok n={nxt.size}")
+        ({ d with a := a', dead := true },
+         s!"reject at={raw.trimAscii.toString.replace " " "_"} prev={d.a.cur.length} state={st.replace " " "_"}")
+      else ({ d with a := a' }, s!"ok n={a'.cur.length}")
 
 def main (_args : List String) : IO UInt32 := do
   Kit.lineLoop handle ({} : D)
